@@ -262,7 +262,16 @@ where F::Sample: dasp_sample::Duplex<f64> {
     let mut n_out: u128 = 0;
     let mut last_pulls = prime;
     let mut saw_multi = false; let mut saw_exh = false; let mut saw_frac = false;
-    let near = |fx: u128| -> bool { let fr = fx & ((1u128 << FIX) - 1); fr < (1u128 << 20) || fr > (1u128 << FIX) - (1u128 << 20) };   // within 2^-40 of an integer
+    // bound (units of 2^-60) on |f64 accumulator position - exact P_n|: the subtractions `iv -= 1.0` are exact, each
+    // `iv += ratio` rounds a result < 1 + ratio once (half an ulp <= 2^-53 (1 + ratio)); 0 while every ratio was on the grid
+    let mut drift: u128 = 0;
+    let step_drift = |fx: u128| -> u128 { (((1u128 << FIX) + fx) >> 53) + 1 };
+    // the exact position is too close to an integer for floor() of the f64 position to be determined by it
+    let near = |fx: u128, d: u128| -> bool { let m = 2 * d + 256; let fr = fx & ((1u128 << FIX) - 1); fr < m || fr > (1u128 << FIX) - m };
+    // the f64 reading of "position P_n", written directly from the property text: acc += r per output, one pull per
+    // whole unit (`while acc >= 1 { pull; acc -= 1 }`) before the next output
+    let mut acc_ref: f64 = 0.0;
+    let mut pulls_ref: u64 = 0;
 
     for o in &c.ops {
         match *o {
@@ -281,7 +290,7 @@ where F::Sample: dasp_sample::Duplex<f64> {
                         let cc = (num + fx - 1) / fx;
                         // with a non-grid ratio the f64 accumulator drifts from k*r; only demand the count when no
                         // multiple up to the bound comes within 2^-40 of an integer
-                        let safe = is_grid(fx) || (1..=cc + 2).all(|k| !near(k * fx));
+                        let safe = is_grid(fx) || (1..=cc + 2).all(|k| !near(k * fx, k * step_drift(fx)));
                         if safe {
                             if cnt as u128 == cc || cnt as u128 == cc + 1 { st.oracle_ok(1); }
                             else { st.oracle_fail("until_exhausted count is neither ceil((R+1)/r) nor one more", &case_text, &format!("{} or {}", cc, cc + 1), &format!("{}", cnt)); }
@@ -289,10 +298,23 @@ where F::Sample: dasp_sample::Duplex<f64> {
                         } else { st.count("count_oracle_skipped_near_integer"); }
                     }
                 }
+                // the same count from the f64 position recurrence of the property text
+                {
+                    let mut k = 0usize;
+                    loop {
+                        let exh_ref = prime + pulls_ref >= l && acc_ref >= 1.0;
+                        if exh_ref || k == cap { break; }
+                        while acc_ref >= 1.0 { pulls_ref += 1; acc_ref -= 1.0; }
+                        acc_ref += ratio; k += 1;
+                    }
+                    if k == cnt && prime + pulls_ref == pulls.get() { st.oracle_ok(1); }
+                    else { st.oracle_fail("until_exhausted: count / pulls differ from the f64 position recurrence (acc += r; one pull per whole unit)", &case_text, &format!("c{}/{}", k, prime + pulls_ref), &format!("c{}/{}", cnt, pulls.get())); }
+                }
                 // after this the bookkeeping continues from P advanced by cnt outputs at the constant ratio
                 if let (Some(pp), Some(fx)) = (p, fix60(ratio)) {
                     if cnt > 0 { p_prev = Some(pp + (cnt as u128 - 1) * fx); p = Some(pp + cnt as u128 * fx); }
                     if !is_grid(fx) { exact = false; }
+                    if !exact { drift += cnt as u128 * step_drift(fx); }
                 } else { p = None; }
                 if ratio != 1.0 { all_one = false; }
                 n_out += cnt as u128;
@@ -311,6 +333,14 @@ where F::Sample: dasp_sample::Duplex<f64> {
         if pl - last_pulls >= 2 { saw_multi = true; }
         if exh { saw_exh = true; }
 
+        // ---- f64 position recurrence (property text read in f64): pulls, exhaustion, floor value
+        {
+            let exh_ref = prime + pulls_ref >= l && acc_ref >= 1.0;
+            while acc_ref >= 1.0 { pulls_ref += 1; acc_ref -= 1.0; }
+            if pl == prime + pulls_ref && exh == exh_ref { st.oracle_ok(1); }
+            else { st.oracle_fail(&format!("output {}: pulls / is_exhausted differ from the f64 position recurrence (acc += r; one pull per whole unit)", n_out), &case_text, &format!("{}/{}", exh_ref as u8, prime + pulls_ref), &format!("{}/{}", exh as u8, pl)); }
+            acc_ref += ratio;
+        }
         // ---- oracles from the property text
         // never un-pulls, and the floor interpolator shows the frame last pulled: in order, none skipped, none re-read
         if pl < last_pulls { st.oracle_fail("pull counter went backwards", &case_text, "", ""); }
@@ -322,7 +352,7 @@ where F::Sample: dasp_sample::Duplex<f64> {
             let fl = pp >> FIX;
             let fr = pp & ((1u128 << FIX) - 1);
             if fr != 0 { saw_frac = true; }
-            let trust = exact || !near(pp);
+            let trust = exact || !near(pp, drift);
             if trust {
                 // pulled exactly floor(P_n) frames beyond priming
                 if (pl - prime) as u128 == fl { st.oracle_ok(1); }
@@ -332,7 +362,7 @@ where F::Sample: dasp_sample::Duplex<f64> {
                     None => false,
                     Some(q) => { let qf = q >> FIX; (prime as u128 + qf >= l as u128) && fl > qf }
                 };
-                let trust_prev = exact || p_prev.map_or(true, |q| !near(q));
+                let trust_prev = exact || p_prev.map_or(true, |q| !near(q, drift));
                 if trust_prev {
                     if exh == want_exh { st.oracle_ok(1); }
                     else { st.oracle_fail(&format!("output {}: is_exhausted before it", n_out), &case_text, &format!("{}", want_exh), &format!("{}", exh)); }
@@ -352,8 +382,8 @@ where F::Sample: dasp_sample::Duplex<f64> {
                             else { st.oracle_fail(&format!("output {}: linear output outside the interval spanned by the two frames", n_out), &case_text, &format!("[{}, {}]", lo, hi), &format!("{}", v)); }
                             let num = (a << FIX) + (b - a) * fr as i128;                 // exact blend * 2^60
                             let dev = ((v << FIX) - num).abs();
-                            // off the 2^-20 grid the f64 position differs from the exact one by < 2^-40
-                            let allow = (F::BLEND_TOL << FIX) + ((b - a).abs() << 20) + (1i128 << 30);
+                            // off the 2^-20 grid the f64 position differs from the exact one by at most `drift`
+                            let allow = (F::BLEND_TOL << FIX) + (b - a).abs() * (2 * drift as i128 + 1) + (1i128 << 30);
                             if dev <= allow { st.oracle_ok(1); }
                             else { st.oracle_fail(&format!("output {}: linear output is not the straight-line blend at the fraction of P_n", n_out), &case_text, &format!("{}/2^60", num), &format!("{}", v)); }
                         }
@@ -369,11 +399,9 @@ where F::Sample: dasp_sample::Duplex<f64> {
                         if v >= lo - tol && v <= hi + tol { st.oracle_ok(1); }
                         else { st.oracle_fail(&format!("output {}: linear output outside the interval spanned by the two frames", n_out), &case_text, &format!("[{:e}, {:e}]", lo, hi), &format!("{:e}", v)); }
                         let blend = a + (b - a) * x;
-                        // off the exact grid the f64 accumulator has drifted from the exact P_n by up to one
-                        // rounding per output produced so far (n_out additions of magnitude < 2^k): allow that
-                        // much error in the fraction, i.e. |b - a| * (n_out + 2) * 2^-50 in the blend
-                        let drift = if exact { 0.0 } else { (b - a).abs() * (n_out as f64 + 2.0) * 8.9e-16 * ratio.abs().max(1.0) };
-                        let tol2 = (mag + (b - a).abs()) * 4e-15 + drift;
+                        // off the exact grid the f64 position differs from the exact P_n by at most `drift`
+                        let drift_f = (b - a).abs() * ((2 * drift + 1) as f64 / (1u128 << FIX) as f64);
+                        let tol2 = (mag + (b - a).abs()) * 4e-15 + drift_f;
                         if (v - blend).abs() <= tol2 { st.oracle_ok(1); }
                         else { st.oracle_fail(&format!("output {}: linear output is not the straight-line blend at the fraction of P_n", n_out), &case_text, &format!("{:e}", blend), &format!("{:e}", v)); }
                     }
@@ -394,7 +422,7 @@ where F::Sample: dasp_sample::Duplex<f64> {
         // advance the bookkeeping: the ratio in effect for this output is added after it
         if ratio != 1.0 { all_one = false; }
         match (p, fix60(ratio)) {
-            (Some(pp), Some(fx)) => { p_prev = Some(pp); p = Some(pp + fx); if !is_grid(fx) { exact = false; } }
+            (Some(pp), Some(fx)) => { p_prev = Some(pp); p = Some(pp + fx); if !is_grid(fx) { exact = false; } if !exact { drift += step_drift(fx); } }
             _ => { p = None; p_prev = None; }
         }
         n_out += 1;
@@ -450,6 +478,11 @@ fn gen_case<F: Fr>(rng: &mut Rng, linear: bool, len: usize, kind: u64, st: &mut 
                    }
                }
                ops.push(Op::Out); st.count("kind_setters"); }
+        8 => { // ratios k/10, k/3, k/7, k/100: their repeated f64 sums land within an ulp of integers (0.1 x 10 = 0.9999999999999999)
+               let r = match rng.below(4) { 0 => (1 + rng.below(30)) as f64 / 10.0, 1 => (1 + rng.below(12)) as f64 / 3.0, 2 => (1 + rng.below(20)) as f64 / 7.0, _ => (1 + rng.below(150)) as f64 / 100.0 };
+               ctor = match rng.below(3) { 0 => Ctor::M, _ => Ctor::P(r) };
+               let m = 30 + rng.usize_below(30);
+               ops.extend((0..m).map(|_| if ctor == Ctor::M { Op::Mul(r) } else { Op::Out })); st.count("kind_const_tenths_thirds"); }
         _ => { let r = match rng.below(3) { 0 => dyadic(rng, false), 1 => dyadic(rng, true), _ => any_ratio(rng) };
                ctor = if rng.chance(1, 4) { Ctor::S(1.0 / r) } else { Ctor::P(r) };
                ops.push(Op::Until(20000)); ops.push(Op::Out); st.count("kind_until_exhausted"); }
@@ -478,7 +511,7 @@ fn run(a: &Args) {
     }
     for _ in 0..reps {
         for len in 0..=40usize {
-            for kind in 0..8u64 {
+            for kind in 0..10u64 {
                 for &linear in &[false, true] {
                     match rng.below(10) {
                         0 => { let c = gen_case::<f64>(&mut rng, linear, len, kind, &mut st); emit(&c, &mut st) }
@@ -498,7 +531,7 @@ fn run(a: &Args) {
     }
     // every format x interpolator x kind at a few lengths, so no combination depends on the draw
     for len in [0usize, 1, 2, 3, 7, 40] {
-        for kind in 0..8u64 {
+        for kind in 0..10u64 {
             for &linear in &[false, true] {
                 let c = gen_case::<f64>(&mut rng, linear, len, kind, &mut st); emit(&c, &mut st);
                 let c = gen_case::<[f64; 2]>(&mut rng, linear, len, kind, &mut st); emit(&c, &mut st);
@@ -513,7 +546,8 @@ fn run(a: &Args) {
             }
         }
     }
-    st.note("oracles (no model involved): P_n kept as an exact integer multiple of 2^-60; pulls beyond priming = floor(P_n), floor value = source[floor(P_n)], linear value between the two frames and within rounding of the straight-line blend at frac(P_n), ratio 1 = identity, is_exhausted = source exhausted and floor(P_n) > floor(P_(n-1)), until_exhausted count in {ceil((R+1)/r), +1}; for ratios off the 2^-20 grid the f64 accumulator is not exact, so these are skipped whenever the exact position is within 2^-40 of an integer (counted in hist)");
+    st.note("f64 position oracle (labelled): besides the exact-position oracles, every output is compared with the f64 reading of the property text - acc += r per output, one pull per whole unit before the next output, exhausted = source exhausted and acc >= 1 - which is what 'position P_n' means for an f64 accumulator and does not depend on how close P_n is to an integer");
+    st.note("oracles (no model involved): P_n kept as an exact integer multiple of 2^-60; pulls beyond priming = floor(P_n), floor value = source[floor(P_n)], linear value between the two frames and within rounding of the straight-line blend at frac(P_n), ratio 1 = identity, is_exhausted = source exhausted and floor(P_n) > floor(P_(n-1)), until_exhausted count in {ceil((R+1)/r), +1}; for ratios off the 2^-20 grid the f64 accumulator is not exact, so the exact-position oracles are skipped whenever the exact position is within the accumulated rounding bound (2^-53 (1+r) per output) of an integer (counted in hist)");
     st.finish();
 }
 
